@@ -128,7 +128,7 @@ def run(ctx):
     except ImportError:
         ctx.note("Data Matrix half of C05 not built yet")
     ctx.exhaustive = False
-    return vlib.finish(ctx, level="model_checking",
+    return vlib.finish(ctx, level="fault_enumeration",
                        rule="one case = one fault script (set of corrupted codewords / flipped format or version bits) applied to a "
                        "symbol of the real encoder; single-codeword faults enumerate every codeword position of every block "
                        "(quick: versions 1,5,7,10,14 fully, 27 and 40 every 7th); full-capacity scripts put floor(ec/2) faults in "
